@@ -677,6 +677,8 @@ def run(scenario, world):
             if _has_hetero_obj(pmc):
                 pmc.set_n_ids(ns)
                 n_top = pmc.n_parameters() + (0 if op.get('sigma') else n_out)
+            if n_top < 1:
+                continue
             fp = call(
                 chi.PopulationFilterLogPosterior, flt, times, mech, pmc,
                 zoo.build_prior({'n': n_top, 'kind': 'lognormal'}),
